@@ -141,7 +141,7 @@ class LibMixin:
             f_has = self.hostfn("hasattr_" + attr, "res")(v)
             raises = self.hostfn("hasattr_" + attr, "raises")(v)
             if self.ctx.branch(raises, "hasattr raises"):
-                self.raise_symbolic(anchor, "BaseException", "host:hasattr")
+                self.raise_symbolic(anchor, getattr(self.top, "host_ops_exc_base", "BaseException"), "host:hasattr")
             self.ctx.assume(Val.is_VBool(f_has))
             # link with getattr: hasattr true => attribute access does not raise AttributeError
             return f_has
@@ -279,7 +279,7 @@ class LibMixin:
             self.raise_("TypeError", anchor)
         cid = self.class_of(v, "float-arg-class")
         if self.is_host_class(cid):
-            res = self.host_op("float", v, node, base="BaseException")
+            res = self.host_op("float", v, node)
             self.ctx.assume(Val.is_VFloat(res))
             return res
         self.raise_("TypeError", anchor)
@@ -338,6 +338,27 @@ class LibMixin:
     def b_new_tuple(self, args, kwargs, node, anchor):
         return self.b_tuple(args, kwargs, node, anchor)
 
+    def b_new_str(self, args, kwargs, node, anchor):
+        return self.b_str(args, kwargs, node, anchor)
+
+    def b_new_int(self, args, kwargs, node, anchor):
+        return self.b_int(args, kwargs, node, anchor) if args else VInt(0)
+
+    def b_new_float(self, args, kwargs, node, anchor):
+        return self.b_float(args, kwargs, node, anchor)
+
+    def b_new_bool(self, args, kwargs, node, anchor):
+        return self.b_bool(args, kwargs, node, anchor) if args else VFalse
+
+    def b_new_type(self, args, kwargs, node, anchor):
+        return self.b_type(args, kwargs, node, anchor)
+
+    def b_new_set(self, args, kwargs, node, anchor):
+        return self.seq_copy(args[0], "set", node, anchor) if args else self.st.new_list([], "set")
+
+    def b_new_frozenset(self, args, kwargs, node, anchor):
+        return self.seq_copy(args[0], "frozenset", node, anchor) if args else self.st.new_list([], "frozenset")
+
     def b_new_deque(self, args, kwargs, node, anchor):
         if args:
             raise Unsupported("deque(iterable)")
@@ -370,12 +391,19 @@ class LibMixin:
     def seq_copy(self, v, kind, node, anchor):
         t = self.tag(v, "seq-arg")
         if t == "str":
-            raise Unsupported("%s(str)" % kind)
+            sx = Val.s(v)
+            j = z3.Int("j!chars")
+            return self.st.new_list_arr(z3.Lambda([j], Val.VStr(z3.SubString(sx, j, 1))), z3.Length(sx), kind)
         if t != "ref":
             self.raise_("TypeError", anchor)
         view = self.st.ghost.get("views", {}).get(self.concrete_ref(v))
         if view is None:
-            cid = self.class_of(v, "seq-arg-class")
+            cands = self.class_candidates(v)
+            seqs = {self.table.id(n) for n in ("list", "tuple", "set", "frozenset", "deque")}
+            if cands is not None and len(cands) > 1 and set(cands) <= seqs:
+                cid = cands[0]
+            else:
+                cid = self.class_of(v, "seq-arg-class")
             if self.is_host_class(cid):
                 res = self.host_op("iter", v, node)
                 # consuming a host iterable: contents unknown; allowed only where the contract says so
